@@ -70,7 +70,7 @@ def generate(rng, tier):
         r = rng.random()
         if r < 0.22:
             steps.append({'id': sid, 'op': 'protect', 'key': k, 'pass': rng.choice(PASSES), 'as_bytes': rng.random() < 0.1,
-                          'cipher': rng.choice([7, 8, 9, 3, 2, 4, 11, 13]), 'hash': rng.choice([8, 10, 2, 9, 11])})
+                          'cipher': rng.choice([7, 8, 9, 3, 2, 4, 11, 13]), 'hash': rng.choice([8, 10, 2, 9, 11, 3, 1])})
         elif r < 0.72:
             inner = [rng.choice(INNER) for _ in range(rng.choice([1, 1, 2, 3, 4]))]
             ex = rng.random()
